@@ -203,9 +203,7 @@ def run(ctx, progs):
                     cb, c0 = sites[0]
                     _pb, o = eff.lift(cb, c0.args()[-1])
                     ok = unref(o)[:2] == ('param', 4 if nm == "store" else 3)
-                if True:
-                    cb = b
-                    ctx.ob("R6.8.order_passed", cb.key, ok, cb.where(), "the caller's `order` reaches AtomicInteger::" + nm + " unchanged")
+                ctx.ob("R6.8.order_passed", b.key, ok, b.where(), "the caller's `order` reaches AtomicInteger::" + nm + " unchanged")
     ctx.not_decided = ["what a concurrent observer sees (schedules)", "codegen: one volatile access => one instruction"]
     return ctx.finish(
         "other",
